@@ -82,7 +82,7 @@ func Run(c Case, strictOrder bool) *Exec {
 
 func (c Case) Key() string {
 	h := fnv.New64a()
-	h.Write([]byte(c.Header()))
+	h.Write([]byte(c.Header() + c.Config()))
 	for _, o := range c.Ops {
 		h.Write([]byte(o.String()))
 		h.Write([]byte{';'})
